@@ -17,6 +17,7 @@ import (
 	"strconv"
 	"strings"
 	"sync"
+	"sync/atomic"
 	"testing"
 	"time"
 )
@@ -67,6 +68,24 @@ func pMessage(k int, big bool) []byte {
 		b += strings.Repeat("0123456789%abcdef", 600) // ~10 KiB
 	}
 	return []byte(b)
+}
+
+var pAddrSeq int32
+
+// pFreeAddr: a loopback address of its own for every scenario (127.<64 + pid mod 64>.x.y, x.y counting up) with a port
+// that was free there a moment ago.  Scenarios run side by side and their sinks die and come back: with ONE address for
+// all of them a port that a dead sink has just given up can be handed to the sink of another scenario, whose producer's
+// messages (numbered alike) then arrive at the wrong sink.
+func pFreeAddr() (host string, port int, err error) {
+	n := int(atomic.AddInt32(&pAddrSeq, 1))
+	host = fmt.Sprintf("127.%d.%d.%d", 64+os.Getpid()%64, 1+(n/250)%250, 1+n%250)
+	l, err := net.Listen("tcp", host+":0")
+	if err != nil {
+		return "", 0, err
+	}
+	port = l.Addr().(*net.TCPAddr).Port
+	l.Close()
+	return host, port, nil
 }
 
 type pInfra string
@@ -322,12 +341,11 @@ func pRun(sc pScript) (res pResult) {
 		}
 	}()
 	// a free loopback port, kept for the whole script so that the sink can come back on it
-	l, err := net.Listen("tcp", "127.0.0.1:0")
+	host, port, err := pFreeAddr()
 	if err != nil {
 		panic(pInfra(err.Error()))
 	}
-	addr := l.Addr().String()
-	l.Close()
+	addr := net.JoinHostPort(host, strconv.Itoa(port))
 	sink := &pSink{addr: addr, proto: sc.Proto}
 	if err := pStart(sink); err != nil {
 		panic(pInfra(err.Error()))
@@ -608,12 +626,11 @@ func TestVerifTwoProducers(t *testing.T) {
 	}
 	var sides []*side
 	for k := 0; k < 2; k++ {
-		l, err := net.Listen("tcp", "127.0.0.1:0")
+		host, port, err := pFreeAddr()
 		if err != nil {
 			t.Fatal(err)
 		}
-		addr := l.Addr().String()
-		l.Close()
+		addr := net.JoinHostPort(host, strconv.Itoa(port))
 		sk := &pSink{addr: addr, proto: "tcp"}
 		if err := pStart(sk); err != nil {
 			t.Fatal(err)
